@@ -215,7 +215,7 @@ def build_model():
             "path": "crate::gen::syn::%s" % t["name"].lower(), "feature": None, "ref": ref_id,
             "ref_variant": (upper_camel(ref_id) if ref_id else None),
             "si_ref": bool(t["ref"] and t["ref"]["prefix"]),
-            "derived": t["derived"], "units": units,
+            "derived": t["derived"], "units": units, "f64_only": bool(t.get("f64_only")),
         })
     # the dimensionless amount
     one = mk_unit("One", "", None, Fraction(1), True, prefixes)
@@ -281,6 +281,8 @@ def gen_syn_rs(syn):
     out = ["// GENERATED by lib/catalogue.py from data/syn.json -- do not edit.",
            "#![allow(dead_code, missing_docs, unused_imports)]", ""]
     for t in syn["types"]:
+        if t.get("f64_only"):
+            out.append("#[cfg(not(feature = \"dec\"))]")
         out.append("pub mod %s {" % t["name"].lower())
         out.append("    use quantities::prelude::*;")
         if t["derived"]:
@@ -324,6 +326,8 @@ def gen_registry_rs(model):
         for t in model["types"]:
             if pred(t):
                 cfg = "#[cfg(feature = \"astro\")] " if t["universe"] == "astro" else ""
+                if t.get("f64_only"):
+                    cfg = "#[cfg(not(feature = \"dec\"))] "
                 out.append("        %s$f::<%s>(%s $(, $arg)*);" % (cfg, rust_type(t), rust_str(t["key"])))
         out.append("    };")
         out.append("}")
@@ -343,6 +347,8 @@ def gen_registry_rs(model):
     for (a, op, b, r) in insts:
         ta, tb, tr = by_key[a], by_key[b], by_key[r]
         cfg = "#[cfg(feature = \"astro\")] " if "astro" in (ta["universe"], tb["universe"], tr["universe"]) else ""
+        if ta.get("f64_only") or tb.get("f64_only") or tr.get("f64_only"):
+            cfg = "#[cfg(not(feature = \"dec\"))] "
         f = "$fmul" if op == "*" else "$fdiv"
         out.append("        %s%s::<%s, %s, %s>(%s, %s, %s $(, $arg)*);" % (
             cfg, f, rust_type(ta), rust_type(tb), rust_type(tr), rust_str(a), rust_str(b), rust_str(r)))
